@@ -123,11 +123,11 @@ def circuit_to_mops(cirq, circuit, qubit_order, keyid=None):
     return '[' + ';\n '.join(terms) + ']', meas, keyid
 
 
-def flat_record(records, meas):
-    """records: dict key -> array (1, instances, qubits) for ONE repetition; meas: [(key, n)] in circuit order."""
+def flat_record(records, meas, rep=0):
+    """records: dict key -> array (repetitions, instances, qubits); meas: [(key, n)] in circuit order; the record of repetition rep."""
     seen, out = {}, []
     for key, n in meas:
         i = seen.get(key, 0)
         seen[key] = i + 1
-        out.extend(int(x) for x in np.asarray(records[key])[0][i])
+        out.extend(int(x) for x in np.asarray(records[key])[rep][i])
     return out
